@@ -24,7 +24,8 @@ WALL_LIMIT = {"quick": 1200, "thorough": 5 * 3600}
 ENUM_LEN = {"quick": 3, "thorough": 4}
 PROBES = ["offset_after_reonset", "inset_after_offset", "same_name_different_value", "two_markers_one_name_one_timepoint",
           "case_variant_names", "delay_shifted_marker", "equal_onset_rows", "rows_shuffled", "scope_left_open_at_end",
-          "unmatched_reported", "enumerated_short_history", "file_level_runs", "api_level_runs", "concurrent_order_matters"]
+          "unmatched_reported", "enumerated_short_history", "file_level_runs", "api_level_runs", "concurrent_order_matters",
+          "def_expand_spelling", "noise_error_rows"]
 RULE = ("Runs 0..N-1 enumerate every history of up to 3 (quick) / 4 (thorough) single-marker time points over "
         "{Onset,Offset,Inset} x {A, B/3} (exhaustive floor); the other runs are seeded histories of 2-10 time points with "
         "1-3 markers each over 1-3 definition names in plain / valued / case-variant spelling, driven through the API "
@@ -66,7 +67,14 @@ SPELL = {"A": ["A", "a"], "B/3": ["B/3", "b/3"], "B/4": ["B/4"], "Cee": ["Cee", 
          "B/go": ["B/go", "b/GO", "B/Go", "B/go"]}
 
 
-def _marker_text(kind, name):
+DEF_CONTENT = {"a": "(Red)", "cee": "(Blue, Square)"}
+
+
+def _marker_text(kind, name, expanded=False):
+    if expanded:
+        base = name.casefold().split("/")[0]
+        content = DEF_CONTENT.get(base) or "(Label/%s)" % name.split("/", 1)[1]
+        return "((Def-expand/%s, %s), %s)" % (name, content, kind)
     if kind == "Onset":
         return "(Def/%s, Onset)" % name
     if kind == "Offset":
@@ -131,7 +139,7 @@ def generate(run_index, seed, tier):
                     val = ("%g" % delta) if unit == "s" else ("%g" % (delta * 1000))
                     carried.setdefault(src, []).append("(Def/%s, %s, Delay/%s %s)" % (name, kind, val, unit))
                 else:
-                    mine.append(_marker_text(kind, name))
+                    mine.append(_marker_text(kind, name, expanded=g.chance(0.15)))
             own.append(mine)
         for ti, (tp, T) in enumerate(zip(hist, times)):
             buckets = [[] for _ in range(g.pick([1, 1, 2, 3]))]
@@ -149,6 +157,13 @@ def generate(run_index, seed, tier):
         # keep file order = time order (stable by construction index), unless shuffled
         rows.sort(key=lambda r: (times[r[2]], 0))
         sc["rows"] = [[r[0], r[1]] for r in rows]
+        # noise: rows that carry a cell error and no marker, at time points of their own (rows that already failed are
+        # skipped by the temporal pass; the markers of the other rows must be unaffected)
+        for _ in range(g.pick([0, 0, 1, 2])):
+            k = g.randrange(len(times))
+            tn = times[k] + 0.0625
+            sc["rows"].append(["%g" % tn, g.pick(["Grren", "Red, Redd", "(Blue, Green"])])
+        sc["rows"].sort(key=lambda r: float(r[0]))
         sc["shuffle"] = g.chance(0.3)
         if sc["shuffle"]:
             sc["rows"] = g.shuffled(sc["rows"])
@@ -256,7 +271,8 @@ def _classify(issues):
         m = _RE_UNMATCHED.search(msg)
         if m:
             name = m.group(2)
-            name = name[4:] if name.lower().startswith("def/") else name
+            low = name.lower()
+            name = name[11:] if low.startswith("def-expand/") else (name[4:] if low.startswith("def/") else name)
             out.append((m.group(1).lower(), name.casefold()))
             continue
         m = _RE_SAME.search(msg)
@@ -275,17 +291,15 @@ def _timepoints_from_rows(rows):
         for part in _split_top(hed):
             if not part.startswith("("):
                 continue
-            inner = [x.strip() for x in part[1:-1].split(",")]
-            kind = next((k for k in KINDS if k in inner), None)
-            d = next((x for x in inner if x.lower().startswith("def/")), None)
-            if kind is None or d is None:
+            km = re.search(r"(?<![\w-])(Onset|Offset|Inset)(?![\w-])", part)
+            dm = re.search(r"Def(?:-expand)?/([^,()\s]+)", part, re.IGNORECASE)
+            if km is None or dm is None:
                 continue
-            delay = next((x for x in inner if x.lower().startswith("delay/")), None)
             t = t0
-            if delay:
-                val, unit = delay[6:].split()
-                t = t0 + float(val) * (0.001 if unit == "ms" else 1.0)
-            tps.setdefault(round(t, 6), []).append((kind, d[4:]))
+            lm = re.search(r"Delay/([0-9.eE+-]+) (\w+)", part)
+            if lm:
+                t = t0 + float(lm.group(1)) * (0.001 if lm.group(2) == "ms" else 1.0)
+            tps.setdefault(round(t, 6), []).append((km.group(1), dm.group(1)))
     return [tps[k] for k in sorted(tps)]
 
 
@@ -359,6 +373,10 @@ def execute(sc, script=None):
             probe("delay_shifted_marker")
         if sc.get("shuffle"):
             probe("rows_shuffled")
+        if any("Def-expand/" in r[1] for r in sc["rows"]):
+            probe("def_expand_spelling")
+        if any(r[1] in ("Grren", "Red, Redd", "(Blue, Green") for r in sc["rows"]):
+            probe("noise_error_rows")
         # all outcomes the nondeterministic model can produce for the whole file
         paths = {(frozenset(), ())}
         for tp in hist:
